@@ -328,6 +328,12 @@ class Idx:
                     if init.get("kind") == "CXXConstructExpr" and not kids(init):
                         continue   # default-constructed, sized later
                     self._set_extent((f.qual, uname(n)), self.vec_extent(init, f), n, f)
+                elif k == "VarDecl" and re.search(r"\[(\d+)\](\[(\d+)\])?$", n.get("type", {}).get("qualType", "")):
+                    # fixed-size local array (lookup table): extents are in the type
+                    m_ = re.search(r"\[(\d+)\](\[(\d+)\])?$", n["type"]["qualType"])
+                    self._set_extent((f.qual, uname(n)), Poly.const(int(m_.group(1))), n, f)
+                    if m_.group(3):
+                        self._set_extent((f.qual, uname(n), "inner"), Poly.const(int(m_.group(3))), n, f)
                 elif k == "VarDecl" and "&" in n.get("type", {}).get("qualType", "") and kids(n):
                     # reference to a vector handed out by a getter: `return <field>;`
                     init = strip(kids(n)[-1], casts=True)
